@@ -22,7 +22,7 @@ def one(sid):
     wt = tempfile.mkdtemp(prefix=f"seedwt-{sid}-")
     out = tempfile.mkdtemp(prefix=f"seedout-{sid}-")
     os.rmdir(wt)
-    res = {"id": sid, "checks": {}, "applies": False}
+    res = {"id": sid, "checks": {}, "applies": False, "not_caught": bool(meta.get("not_caught"))}
     try:
         subprocess.run(["git", "-C", "/repo", "worktree", "add", "-q", "--detach", wt, "HEAD"], check=True)
         a = subprocess.run(["git", "-C", wt, "apply", str(SEEDED / sid / "patch.diff")], capture_output=True, text=True)
@@ -50,6 +50,8 @@ def main():
     with cf.ThreadPoolExecutor(jobs) as ex:
         for r in ex.map(one, ids):
             ok = r["applies"] and r["checks"] and all(c["exit"] == 1 and c["violations"] > 0 for c in r["checks"].values())
+            if r.get("not_caught"):
+                ok = r["applies"]            # filed as a known miss: only required to apply
             r["as_expected"] = bool(ok)
             print(("ok  " if ok else "FAIL"), r["id"], r["checks"] if r["applies"] else "PATCH DOES NOT APPLY", flush=True)
             results.append(r)
